@@ -44,6 +44,12 @@ func randGzHeader(r *Rng) gzHeader {
 	}
 	if r.Bool() {
 		h.ModTime = int64(r.Intn(1 << 31))
+		switch r.Intn(4) {
+		case 0: // MTIME is an unsigned 32-bit field: times from 2038-01-19 to 2106
+			h.ModTime = 1<<31 + int64(r.Intn(1<<31))
+		case 1:
+			h.ModTime = []int64{1, 1<<31 - 1, 1 << 31, 1<<32 - 1}[r.Intn(4)]
+		}
 	}
 	h.OS = byte(r.Pick([]int{0, 3, 255, 7}))
 	return h
